@@ -587,7 +587,8 @@ theorem getChanged_lookup (null : α) (sh : Shp) (wf : WF sh) (hsl : sh.hasSlice
   · simp only [hsame, if_false] at h
     by_cases hpres : new ∈ preserving (ks.map (·.1))
     · simp only [hpres, not_true_eq_false, if_false, hnew, if_true] at h
-      have hm0 : (if mult sh new = 0 then sh.S else mult sh new) = mult sh new := by
+      have hm0 : (if mult sh new = 0 then mult { sh with hasSlice := true } new else mult sh new) =
+          mult sh new := by
         have := hpos new; split <;> omega
       rw [hm0] at h
       cases ks with
